@@ -78,7 +78,7 @@ theorem content_far (inv : f.Inv) (ra : ReplArgs f a b q vq l A r t) {po : Nat}
   have hpot : po ∉ handles t := by
     intro hin
     apply hpoL
-    rw [handlesList_append, handlesList_cons]
+    rw [fs_handlesList_append, handlesList_cons]
     exact List.mem_append_right _ (List.mem_append_left _ hin)
   have hpoA : po ∉ handles A := by
     intro hin
@@ -144,7 +144,7 @@ theorem content_far (inv : f.Inv) (ra : ReplArgs f a b q vq l A r t) {po : Nat}
       intro k hk hkt
       rcases mem_put hk with e | e
       · rw [e] at hkt ⊢
-        exact ⟨leaf_of_text inv.valid ra.hgb hkt, fun e' => hpot (e' ▸ handle_mem_handles t)⟩
+        exact ⟨leaf_of_text inv.valid ra.hgb hkt, fun e' => hpot (e' ▸ fs_handle_mem_handles t)⟩
       · have hkl := htext1 k e hkt
         have hkL : k ∈ l ++ A :: r := by
           rcases List.mem_append.1 hkl with h | h
